@@ -48,6 +48,7 @@ class ModelReplay:
         self.r = Run(scn, seed=0, debug=debug)
         self.w = self.r.w
         self.login = None
+        self.canceller = None
         self.diverged = None
         self.sync_index = 0
 
@@ -61,6 +62,13 @@ class ModelReplay:
     def proc_of(self, slot):
         if slot == 0:
             return self.login
+        if slot == 2 * self.maxb + 1:
+            return self.canceller
+        if slot == 2 * self.maxb + 2:
+            cands = [p for p in self.w.procs if p.parent is not None and self.w.handles[p.parent].get("owner") == self.canceller.pid]
+            if not cands:
+                raise Divergence("cancel-jobs has not started its try-submit-jobs")
+            return cands[-1]
         if slot <= self.maxb:
             hid = self.hid_of(slot)
             cands = [p for p in self.w.procs if p.batch == hid and p.label == "run-jobs"]
@@ -100,6 +108,9 @@ class ModelReplay:
         if name == "UserTry":
             self.login = self.r.user("try-submit-jobs", self.w.out)
             return
+        if name == "UserCancel":
+            self.canceller = self.r.user("cancel-jobs", self.w.out, host="login")
+            return
         if name == "NodeKill":
             hid = self.hid_of(a)
             if w.batches[hid]["state"] != "RUNNING":
@@ -130,6 +141,29 @@ class ModelReplay:
         if name in ("Promote", "CheckComplete", "MarkComplete", "Demote"):
             self.expect(p, "lock", "cluster")
             self.step(p)
+        elif name == "CPromote":
+            self.expect(p, "lock", "cluster")
+            self.step(p)
+            if not x:                 # refused: cancel-jobs sleeps a second and tries again
+                self.expect(p, "sleep")
+                self.step(p)
+        elif name in ("CMark", "CDemote"):
+            self.expect(p, "lock", "cluster")
+            self.step(p)
+        elif name == "CScancel":
+            if x:
+                self.expect(p, "popen", "scancel")
+                self.step(p)
+        elif name == "CTrySpawn":
+            self.expect(p, "sleep")
+            self.step(p)
+            self.expect(p, "popen", "jade")
+            self.step(p)
+        elif name == "CEnd":
+            self.expect(p, "wait")
+            self.step(p)
+            if p.alive:
+                raise Divergence(f"cancel-jobs {p.pid} did not end: {parked(p)}")
         elif name == "Persist":
             if x:
                 self.expect(p, "lock", "cluster")
@@ -259,6 +293,8 @@ def norm(e, idmap):
         return ["squeue", e["ok"]]
     if k in ("kill", "nodekill"):
         return [k, e["pid"]]
+    if k == "scancel":
+        return ["scancel", e["b"]]
     return None
 
 
